@@ -818,7 +818,7 @@ class D08(Extra):
 class D10(Extra):
     RULE = ('dense-time online monitors: past-time (and pastified bounded-future) formulas, a history of 0-3 update() batches, reset() (also twice, also before the '
             'first update), then 1-3 continuation batches whose time-stamps start again at 0 (in some cases the first of them does not mention one of the variables: the fresh monitor fails on that, and so must the reset one); every post-reset output must equal what a freshly constructed '
-            'monitor returns for the continuation')
+            'monitor returns for the continuation; the list of every update(), before and after the reset(s), is also compared with the model of reset() (DenseOnlineReset.run_api: set_ast again)')
 
     def gen(self, rng, tier):
         out = []
@@ -853,10 +853,26 @@ class D10(Extra):
             out.append({i: (len(sigs[i]) * j // k, len(sigs[i]) * (j + 1) // k) for i in used})
         return out
 
+    def segments(self, c):
+        """the update() data sets, grouped in segments with a reset() between two consecutive segments (the calls of impl_cases)"""
+        f = c['f']
+        used = fml.fvars(f)
+        envs = lambda sigs, bs: [[sigs[i][b[i][0]:b[i][1]] if i in used else [] for i in range(len(sigs))] for b in bs]
+        hist = envs(c['sigs'], self.batches(f, c['sigs'], c['hb'])) if c['hb'] > 0 else []
+        post = envs(c['post'], self.batches(f, c['post'], c['pb']))
+        return [hist[:1], hist[1:], post] if c.get('twice') else [hist, post]
+
     def model_lines(self, c):
         kind = 'pastrhoz' if fml.has_future(c['f']) else 'rhoz'
         t0, tmax, tmin = domain(c['f'], c['post'])
-        return ['(%s std %s (%s) %d %d)' % (kind, fml.to_sx(c['f']), sigs_sx(c['post']), 0, tmax + 8)]
+        # the model of reset() (DenseOnlineReset.run_api, theorems C10_dense_reset / C10_dense_reset_calls): the lists of every update()
+        segs = ' '.join('(' + ' '.join('(' + ' '.join(dense.sig_sx(b) for b in env) + ')' for env in seg) + ')' for seg in self.segments(c))
+        return ['(%s std %s (%s) %d %d)' % (kind, fml.to_sx(c['f']), sigs_sx(c['post']), 0, tmax + 8),
+                '(%s 0 std %s (%s))' % ('pastonlmonreset' if fml.has_future(c['f']) else 'onlmonreset', fml.to_sx(c['f']), segs)]
+
+    def inexact(self, f):
+        # an operand of iff/xor may be +-inf (initial values and padding of the temporal operators): inf - inf is not a number
+        return bool(fml.ops(f) & {'iff', 'xor'}) and (fml.has_future(f) or bool(fml.ops(f) & {'once', 'hist', 'since', 'oncet', 'histt', 'sincet'}))
 
     def impl_cases(self, c):
         f = c['f']
@@ -873,14 +889,24 @@ class D10(Extra):
         calls = hist + [['reset']]
         if c.get('twice'):
             calls = hist[:1] + [['reset']] + hist[1:] + [['reset']]
-        return [dict(base, calls=calls + post), dict(base, calls=post)]
+        # what get_value() returns between the reset and the next update: as for a fresh monitor
+        probes = [['get_value', nm] for nm in ['out'] + fml.VARS[:c['nv']]]
+        return [dict(base, calls=calls + post), dict(base, calls=post), dict(base, calls=calls + probes), dict(base, calls=probes)]
 
     def judge(self, c, mlines, ires):
         if any(l.startswith('ERROR') for l in mlines):
             return 'model-error', mlines
-        if not all(dense.dn_exact(l) for l in mlines):
+        if not all(dense.dn_exact(l) for l in mlines[:1]):
             return 'dropped', None
-        a, b = ires
+        a, b = ires[:2]
+        if len(ires) == 4 and ires[2]['setup']['status'] == 'ok' and ires[3]['setup']['status'] == 'ok':
+            np_ = 1 + c['nv']
+            oc = lambda r: [r['status'], r.get('value') if r['status'] == 'ok' else r.get('kind')]
+            if all(r['status'] == 'ok' for r in ires[2]['calls'][:-np_]):
+                got, exp = [oc(r) for r in ires[2]['calls'][-np_:]], [oc(r) for r in ires[3]['calls']]
+                if got != exp:
+                    return 'violation', {'spec': 'out = ' + text(c['f']), 'shape': 'get_value-after-reset', 'names': ['out'] + fml.VARS[:c['nv']], 'history_ticks': c['sigs'],
+                                         'expected': {'fresh monitor, get_value before the first update': exp}, 'observed': {'get_value after reset()': got}}
         det = {'spec': 'out = ' + text(c['f']), 'pastified': fml.has_future(c['f']), 'history_ticks': c['sigs'], 'continuation_ticks': c['post'],
                'history_batches': c['hb'], 'reset_twice': bool(c.get('twice')), 'tick_s': dense.SCALE}
         for i in (a, b):
@@ -910,6 +936,26 @@ class D10(Extra):
         fresh = [outcome(r) for r in b['calls']]
         if post != fresh:
             return 'violation', dict(det, expected={'fresh monitor': fresh}, observed={'after reset': post})
+        if c.get('omit') is None and len(mlines) > 1 and not self.inexact(c['f']) and all(r['status'] == 'ok' for r in a['calls']):
+            # list for list against the model of reset(): every update() of the history and of the continuation
+            ups = [r['value'] for r, cc in zip(a['calls'], self.impl_cases(c)[0]['calls']) if cc[0] == 'update']
+            if any(v == 'nan' for u in ups for _, v in u):
+                return 'ok', None
+            if mlines[1] == 'ONLMONRESET BAD' or not mlines[1].startswith('ONLMONRESET'):
+                return 'violation', dict(det, kind='list', expected={'source': 'DenseOnlineReset.run_api', 'value': mlines[1]}, observed='every call returned')
+            exp = []
+            for part in mlines[1][len('ONLMONRESET'):].split('|'):
+                part = part.strip()
+                k = int(part.split()[0][1:])
+                if k:
+                    for u in part[len(part.split()[0]):].split(';'):
+                        exp.append([[(math.inf if x.rsplit(':', 1)[0] == 'inf' else int(x.rsplit(':', 1)[0])), float(fml.parse_val(x.rsplit(':', 1)[1]))] for x in u.split()])
+            got = [dense.from_impl(u) for u in ups]
+            same = len(exp) == len(got) and all(len(x) == len(y) and all(float(p[0]) == float(q[0]) and float(p[1]) == float(q[1]) for p, q in zip(x, y)) for x, y in zip(exp, got))
+            if not same:
+                return 'violation', dict(det, kind='list', expected={'source': 'DenseOnlineReset.run_api: the list of every update(), history and continuation', 'samples_ticks': [[[t_, fml.val_sx(v_)] for t_, v_ in u] for u in exp]},
+                                         observed={'samples_ticks': got})
+            self.reset_lists = getattr(self, 'reset_lists', 0) + 1
         return 'ok', None
 
 
